@@ -852,3 +852,60 @@ def family_A(seed: int, count: int) -> List[Spec]:
         sp = Spec(cfg, "A", f"A-{seed}-{i}-{kind}-M{M}-L{L}")
         out.append(sp)
     return out
+
+
+# ---------------------------------------------------------------------------------------
+# Family X: timers (after), slow actions; small machines, a fixed event vocabulary
+
+def family_X(seed: int, count: int) -> List[Spec]:
+    rng = random.Random(seed)
+    out = []
+    shapes = ["single", "equal_pair", "two_delays", "periodic", "named", "nested", "parallel"]
+    for i in range(count):
+        shape = shapes[i % len(shapes)]
+        d1, d2 = rng.choice([(50, 80), (50, 50), (80, 50)])
+        A: Dict[str, Any] = {"entry": ["en:m.A"], "exit": ["ex:m.A"], "on": {}}
+        B: Dict[str, Any] = {"entry": ["en:m.B"], "exit": ["ex:m.B"], "on": {"BACK": {"target": "#m.A", "actions": ["tr:back"]}}}
+        C: Dict[str, Any] = {"entry": ["en:m.C"], "exit": ["ex:m.C"], "on": {"BACK": {"target": "#m.A", "actions": ["tr:backc"]}}}
+        delays = {}
+        if shape == "single":
+            A["after"] = {str(d1): {"target": "#m.B", "actions": ["tr:af1"]}}
+        elif shape == "equal_pair":
+            A["after"] = {str(d1): [{"target": "#m.B", "actions": ["tr:af1"], "guard": "ga"},
+                                    {"target": "#m.C", "actions": ["tr:af2"]}]}
+        elif shape == "two_delays":
+            A["after"] = {str(d1): {"target": "#m.B", "actions": ["tr:af1"], **({"guard": "ga"} if rng.random() < 0.5 else {})},
+                          str(d2 + 1): {"target": "#m.C", "actions": ["tr:af2"]}}
+        elif shape == "periodic":
+            A["after"] = {str(d1): {"target": "#m.A", "reenter": True, "actions": ["tr:tick"]}}
+            B["after"] = {str(d2): {"target": "#m.A", "actions": ["tr:afb"]}}
+        elif shape == "named":
+            A["after"] = {"T_A": {"target": "#m.B", "actions": ["tr:af1"]}}
+            delays["T_A"] = d1
+        elif shape == "nested":
+            A = {"initial": "a1", "entry": ["en:m.A"], "exit": ["ex:m.A"], "on": {},
+                 "after": {str(d2 + 30): {"target": "#m.C", "actions": ["tr:afA"]}},
+                 "states": {"a1": {"entry": ["en:m.A.a1"], "exit": ["ex:m.A.a1"],
+                                   "after": {str(d1): {"target": "#m.A.a2", "actions": ["tr:af1"]}}},
+                            "a2": {"entry": ["en:m.A.a2"], "exit": ["ex:m.A.a2"],
+                                   "on": {"IN": {"target": "#m.A.a1", "actions": ["tr:in"]}}}}}
+        elif shape == "parallel":
+            A = {"type": "parallel", "entry": ["en:m.A"], "exit": ["ex:m.A"], "on": {},
+                 "states": {"r1": {"initial": "x", "entry": ["en:m.A.r1"], "exit": ["ex:m.A.r1"],
+                                   "states": {"x": {"entry": ["en:m.A.r1.x"], "exit": ["ex:m.A.r1.x"],
+                                                    "after": {str(d1): {"target": "#m.A.r1.y", "actions": ["tr:af1"]}}},
+                                              "y": {"entry": ["en:m.A.r1.y"], "exit": ["ex:m.A.r1.y"]}}},
+                            "r2": {"initial": "u", "entry": ["en:m.A.r2"], "exit": ["ex:m.A.r2"],
+                                   "states": {"u": {"entry": ["en:m.A.r2.u"], "exit": ["ex:m.A.r2.u"],
+                                                    "after": {str(d2): {"target": "#m.B", "actions": ["tr:af2"]}}}}}}}
+        A["on"].update({"RE": {"target": "#m.A", "reenter": True, "actions": ["tr:re"]},
+                        "GO": {"target": "#m.B", "actions": ["tr:go"]},
+                        "NOP": {"actions": ["tr:nop"]}})
+        if rng.random() < 0.7:
+            A["on"]["SLOW"] = {"actions": ["tr:slow", "slow:100"]}
+        cfg = {"id": "m", "initial": "A", "entry": ["en:m"], "exit": ["ex:m"], "states": {"A": A, "B": B, "C": C}}
+        sp = Spec(cfg, "X", f"X-{seed}-{i}-{shape}-{d1}-{d2}")
+        sp.delays = delays
+        sp.events = ["RE", "GO", "BACK"] + (["SLOW"] if "SLOW" in A["on"] else []) + (["IN"] if shape == "nested" else [])
+        out.append(sp)
+    return out
